@@ -40,6 +40,9 @@ class FnSpec:
         self.clauses = []    # (where, kind, name, text) where: 0 fn-level, n loop ordinal
         self.edits = []      # (op, rule/name, pattern, text)
         self.closures = {}   # ordinal -> {'params': text|None, 'ret': text|None}
+        self.iters = {}      # loop ordinal -> ghost iterator name (for-loops)
+        self.blocks = []     # (where, loop ordinal, text): anchor-free proof blocks
+        self.index_loops = []  # (loop ordinal, index var): R13
         self.line = 0
 
 
@@ -81,6 +84,16 @@ def parse_specs(text, fname='<spec>'):
         elif d == 'closure':
             loop = ('closure', int(arg))
             cur.closures.setdefault(int(arg), {'params': None, 'ret': None})
+        elif d in ('loop_begin', 'loop_end', 'fn_begin', 'fn_end'):
+            body = []
+            while i < len(lines) and not lines[i].lstrip().startswith('@'):
+                body.append(lines[i])
+                i += 1
+            cur.blocks.append((d, loop if d in ('loop_begin', 'loop_end') else 0, '\n'.join(body)))
+        elif d == 'index_loop':
+            cur.index_loops.append((loop, arg))
+        elif d == 'iter':
+            cur.iters[loop] = arg
         elif d == 'params':
             cur.closures[loop[1]]['params'] = arg
         elif d == 'cret':
@@ -94,7 +107,7 @@ def parse_specs(text, fname='<spec>'):
             while body and not body[-1].strip():
                 body.pop()
             cur.clauses.append((loop, d, arg or None, '\n'.join(body)))
-        elif d in ('insert', 'rewrite', 'drop'):
+        elif d in ('insert', 'rewrite', 'drop', 'rewrite_all'):
             if not (i < len(lines) and lines[i].strip() == '<<<'):
                 raise SpecError('%s:%d expected <<<' % (fname, i + 1))
             i += 1
@@ -285,6 +298,30 @@ def find_closures(text, body_a):
     return res
 
 
+def rule_R13_index_loop(text, lp, idx, what):
+    """for PAT in EXPR.iter_mut() { BODY }  ->
+       let mut IDX: usize = 0; while IDX < EXPR.len() { let PAT = &mut EXPR[IDX]; BODY; IDX += 1; }"""
+    toks, s, arrow, where, body = _fn_layout(text)
+    loops = find_loops(text, toks[s[body]].a)
+    if lp < 1 or lp > len(loops):
+        raise LostAnchor('%s: loop %d not found' % (what, lp))
+    kw_a, br_a = loops[lp - 1]
+    header = text[kw_a:br_a]
+    m = re.match(r'^for\s+([A-Za-z_][A-Za-z_0-9]*)\s+in\s+(.+?)\s*\.\s*iter_mut\s*\(\s*\)\s*$', header, re.S)
+    if not m:
+        raise LostAnchor('%s: loop %d is not `for x in e.iter_mut()`: %r' % (what, lp, header))
+    var, expr = m.group(1), m.group(2)
+    # closing brace of the loop body
+    ltoks = rsx.tokenize(text)
+    bi = next(i for i, t in enumerate(ltoks) if t.a == br_a)
+    ce = rsx.match_close(ltoks, bi)
+    close_a = ltoks[ce].a
+    new = (text[:kw_a] + 'let mut %s: usize = 0;\n        while %s < %s.len() ' % (idx, idx, expr)
+           + '{\n            let %s = &mut %s[%s];' % (var, expr, idx)
+           + text[br_a + 1:close_a] + '    %s += 1;\n        ' % idx + text[close_a:])
+    return new
+
+
 def _indent(block, pad):
     return '\n'.join((pad + l.strip()) if l.strip() else '' for l in block.split('\n'))
 
@@ -305,11 +342,21 @@ def inject(text, fs, oblig_lines=None, what=''):
         elif op == 'rewrite':
             text = apply_edit(text, 'rewrite', pat, rep, '%s @rewrite %s' % (fs.path, arg))
             rewrites.append((arg, ' '.join(pat.split())[:100]))
+        elif op == 'rewrite_all':
+            hits = find_pattern(text, pat)
+            if not hits:
+                raise LostAnchor('%s @rewrite_all %s: pattern not found: %r' % (fs.path, arg, ' '.join(pat.split())[:80]))
+            for (a, b) in sorted(hits, reverse=True):
+                text = text[:a] + rep + text[b:]
+            rewrites.append((arg, '%dx %s' % (len(hits), ' '.join(pat.split())[:100])))
         elif op == 'drop':
             text = apply_edit(text, 'drop', pat, '', '%s @drop %s' % (fs.path, arg))
             rewrites.append((arg, ' '.join(pat.split())[:100]))
     if fs.kind != 'fn':
         return ''.join(a + '\n' for a in fs.attrs) + text, rewrites
+    for (lp, idx) in fs.index_loops:
+        text = rule_R13_index_loop(text, lp, idx, fs.path)
+        rewrites.append(('R13', 'loop %d: for .. in X.iter_mut() -> index loop over X' % lp))
 
     # loops first (offsets further down the text), then the signature
     toks, s, arrow, where, body = _fn_layout(text)
@@ -337,6 +384,32 @@ def inject(text, fs, oblig_lines=None, what=''):
             inserts.append(((ba, bb), hdr + ('\n' + spec_txt + '\n            ' if spec_txt else ' ') + '{ ' + text[ba:bb] + ' }'))
         if cinfo['params'] is not None:
             inserts.append(((pa, pb), cinfo['params']))
+    for (where, lp, blk) in fs.blocks:
+        if where == 'loop_begin':
+            if lp > len(loops) or lp < 1:
+                raise LostAnchor('%s: loop %d not found' % (fs.path, lp))
+            pos = loops[lp - 1][1] + 1
+            inserts.append(((pos, pos), '\n' + blk + '\n'))
+        elif where == 'loop_end':
+            if lp > len(loops) or lp < 1:
+                raise LostAnchor('%s: loop %d not found' % (fs.path, lp))
+            ltoks = rsx.tokenize(text)
+            bi = next(i for i, t in enumerate(ltoks) if t.a == loops[lp - 1][1])
+            pos = ltoks[rsx.match_close(ltoks, bi)].a
+            inserts.append(((pos, pos), '\n' + blk + '\n'))
+        elif where == 'fn_begin':
+            inserts.append(((body_a + 1, body_a + 1), '\n' + blk + '\n'))
+        else:
+            endpos = text.rindex('}')
+            inserts.append(((endpos, endpos), '\n' + blk + '\n'))
+    for lp, nm in fs.iters.items():
+        if lp > len(loops):
+            raise LostAnchor('%s: loop %d not found' % (fs.path, lp))
+        kw_a = loops[lp - 1][0]
+        m = re.compile(r'\bin\b').search(text, kw_a)
+        if not text.startswith('for', kw_a) or m is None or m.start() > loops[lp - 1][1]:
+            raise LostAnchor('%s: loop %d is not a for-loop' % (fs.path, lp))
+        inserts.append(((m.end(), m.end()), ' %s:' % nm))
     for lp, cls in by_loop.items():
         if lp == 0 or isinstance(lp, tuple):
             continue
